@@ -121,12 +121,45 @@ Fixpoint recurse0 (fuel : nat) (k : str -> wres) (read_head w : str) (buf : str)
           else
             let max := atoi rest in
             let rest1 := skip_digits rest in
+            (* const bool slash = *read_head == '/'; if(slash) ++read_head;
+               snprintf(write_head, 32, slash ? "%d/" : "%d", i) *)
+            let slash := hd0 rest1 =? 47 in
+            let rest2 := if slash then tl rest1 else rest1 in
+            let sl : str := if slash then [47] else [] in
+            (fix each (l : list nat) (out : list report) (buf : str) : wres :=
+               match l with
+               | [] => WOk out buf
+               | i :: r =>
+                   match recurse0 f k rest2 (w ++ lit ++ dec (Z.of_nat i) ++ sl) buf with
+                   | WOk o b => each r (out ++ o) b
+                   | WFail => WFail
+                   end
+               end) (seq 0 (Z.to_nat max)) [] buf
+      | None =>
+          let w1 := w ++ upto_colon read_head in
+          let w2 := if last_is_slash w1 then w1 else w1 ++ [47] in
+          k w2
+      end
+  end.
+
+(* before the commit "fix: walk_ports wrote a '/' behind every index ...": the '/'
+   was written whether or not the name has one (kept for WalkRegress.v) *)
+Fixpoint recurse0_pinned (fuel : nat) (k : str -> wres) (read_head w : str) (buf : str) : wres :=
+  match fuel with
+  | O => WFail
+  | S f =>
+      match split_hash1 read_head with
+      | Some (lit, rest) =>
+          if has_char 58 lit then WFail       (* a ':' in front of a '#': outside the modelled names *)
+          else
+            let max := atoi rest in
+            let rest1 := skip_digits rest in
             let rest2 := match rest1 with c :: t => if c =? 47 then t else rest1 | [] => rest1 end in
             (fix each (l : list nat) (out : list report) (buf : str) : wres :=
                match l with
                | [] => WOk out buf
                | i :: r =>
-                   match recurse0 f k rest2 (w ++ lit ++ dec (Z.of_nat i) ++ [47]) buf with
+                   match recurse0_pinned f k rest2 (w ++ lit ++ dec (Z.of_nat i) ++ [47]) buf with
                    | WOk o b => each r (out ++ o) b
                    | WFail => WFail
                    end
